@@ -18,19 +18,33 @@ def clfCan : List (Site × Cls) := [
   (Site.fn_clf_connect, Cls.SystemExit),
   (Site.fn_clf_llcp_connect, Cls.KeyboardInterrupt),
   (Site.fn_clf_sense, Cls.clf_UnsupportedTargetError),
-  (Site.fn_clf_listen, Cls.clf_TimeoutError)]
-/-- both lists, checked with one evaluation of the summary table -/
-theorem clfAll_ok : checkAll world table prog clfOnly [] clfCan = true := by decide +kernel
+  (Site.fn_clf_listen, Cls.clf_TransmissionError)]
+/-- classes that never leave `connect()` -/
+def clfNever : List (Site × List Cls) := [
+  (Site.fn_clf_connect, [Cls.clf_TimeoutError, Cls.clf_BrokenLinkError, Cls.clf_ProtocolError, Cls.clf_UnsupportedTargetError,
+    Cls.KeyboardInterrupt, Cls.llcp_pdu_Error, Cls.llcp_sec_Error, Cls.tag_TagCommandError, Cls.clf_rcs380_CommunicationError]),
+  (Site.fn_clf_llcp_connect, [Cls.clf_TimeoutError, Cls.clf_BrokenLinkError, Cls.clf_ProtocolError]),
+  (Site.fn_llc_activate, [Cls.clf_TimeoutError, Cls.clf_BrokenLinkError, Cls.clf_ProtocolError])]
+/-- all lists, checked with one evaluation of the summary table -/
+theorem clfAll_ok : checkAll world table prog clfOnly clfNever clfCan = true := by decide +kernel
 theorem clfOnly_ok : checkOnly world table prog clfOnly = true := (checkAll_split clfAll_ok).1
+theorem clfNever_ok : checkNever world table prog clfNever = true := (checkAll_split clfAll_ok).2.1
 theorem clfCan_ok : checkCan world table prog clfCan = true := (checkAll_split clfAll_ok).2.2
 
 
 /-- What can leave `connect()`: `IOError` (documented: no device), `TypeError` / `ValueError` (documented:
 bad options / targets), and - outside the documented contract - `SystemExit` (open finding
 `connect-systemexit-from-llc-run`), `RuntimeError` (open finding `t1t2-unknown-commerror-runtimeerror`
-reached through `tag.is_present`), `AssertionError`, and what `Device.mute()` lets through
-(`Chipset.Error`, `StatusError`, the `TransmissionError` of `udp.Device.mute`).  In particular no
-`KeyboardInterrupt`, no `UnsupportedTargetError`, no `TagCommandError`, no `pdu.Error`. -/
+reached through `tag.is_present`), `AssertionError`, and what `Device.mute()` and the drivers' `sense_*` /
+`listen_*` let through (`Chipset.Error`, `StatusError`, `TransmissionError`: `Props/ExcFlowDiscovery.lean`).  In
+particular no `KeyboardInterrupt`, no `UnsupportedTargetError`, no `TagCommandError`, no `pdu.Error`
+(`clf_connect_no_commerror`).
+
+Nothing is assumed about NFC-DEP activation: `_llcp_connect` calls `LogicalLinkController.activate`, which calls
+`nfc.dep.Initiator.activate` / `Target.activate`, which call `sense()` / `listen()`, which call `sense_*` /
+`listen_dep` of every driver class - all translated from the source.  Assumed on the llcp path: `clf.exchange` raises
+`CommunicationError` subclasses (`clf_exchange_escapes`), `mac.exchange` / `mac.deactivate` as in `llc.exchange` /
+`llc.terminate`. -/
 theorem clf_connect_escapes : Only Site.fn_clf_connect
     [Cls.OSError, Cls.TypeError, Cls.ValueError, Cls.SystemExit, Cls.RuntimeError, Cls.AssertionError,
      Cls.clf_pn53x_Chipset_Error, Cls.clf_rcs380_StatusError, Cls.clf_TransmissionError] :=
@@ -38,6 +52,21 @@ theorem clf_connect_escapes : Only Site.fn_clf_connect
 /-- open finding `connect-systemexit-from-llc-run` / `connect-left-by-SystemExit-ioerror` (F21) -/
 theorem clf_connect_systemexit : Can Site.fn_clf_connect Cls.SystemExit :=
   canEscape_of_checkCan tree_ordered clfCan_ok (by decide)
+/-- **no `TimeoutError`, `BrokenLinkError`, `ProtocolError` leaves `connect()`** (nor `_llcp_connect`, nor
+`LogicalLinkController.activate`): a driver that waits for activation returns `None` when the peer stops answering.
+Proved from the source of `udp.Device.listen_dep` (repaired by fixes/C18/0005: the exchanges after the ATR_RES /
+PSL_RES were outside every handler and `connect(llcp=...)` was left by `TimeoutError` / `BrokenLinkError`),
+`nfc.dep.Target.activate`, `LogicalLinkController.activate`; reverting the repair breaks this theorem.  The
+`TransmissionError` that remains in `clf_connect_escapes` is the short-send check of `udp.Device._send_data`
+(`mute`, `sense_tta`, the discovery responses of `listen_*`). -/
+theorem clf_connect_no_commerror : NeverEscapes world table prog Site.fn_clf_connect
+      [Cls.clf_TimeoutError, Cls.clf_BrokenLinkError, Cls.clf_ProtocolError, Cls.clf_UnsupportedTargetError, Cls.KeyboardInterrupt,
+       Cls.llcp_pdu_Error, Cls.llcp_sec_Error, Cls.tag_TagCommandError, Cls.clf_rcs380_CommunicationError] ∧
+    NeverEscapes world table prog Site.fn_clf_llcp_connect [Cls.clf_TimeoutError, Cls.clf_BrokenLinkError, Cls.clf_ProtocolError] ∧
+    NeverEscapes world table prog Site.fn_llc_activate [Cls.clf_TimeoutError, Cls.clf_BrokenLinkError, Cls.clf_ProtocolError] :=
+  ⟨neverEscapes_of_checkNever tree_ordered clfNever_ok (by decide),
+   neverEscapes_of_checkNever tree_ordered clfNever_ok (by decide),
+   neverEscapes_of_checkNever tree_ordered clfNever_ok (by decide)⟩
 /-- non-vacuity: the link loop does raise `KeyboardInterrupt`; `connect()` turns it into `False` -/
 theorem clf_llcp_connect_keyboardinterrupt : Can Site.fn_clf_llcp_connect Cls.KeyboardInterrupt :=
   canEscape_of_checkCan tree_ordered clfCan_ok (by decide)
@@ -52,12 +81,13 @@ theorem clf_sense_several_escapes : Only Site.fn_clf_sense_several
 theorem clf_sense_single_unsupported : Can Site.fn_clf_sense Cls.clf_UnsupportedTargetError :=
   canEscape_of_checkCan tree_ordered clfCan_ok (by decide)
 
-/-- `_card_connect`: the `CommunicationError` of `listen()` and of the emulation loop does not escape (F30) -/
+/-- `_card_connect`: the `CommunicationError` of `listen()` and of the emulation loop does not escape (F30);
+non-vacuity `clf_listen_raises_commerror`: `listen()` does raise one (the `TransmissionError` of the UDP driver) -/
 theorem clf_card_connect_escapes : Only Site.fn_clf_card_connect
     [Cls.OSError, Cls.ValueError, Cls.AssertionError, Cls.KeyboardInterrupt, Cls.clf_UnsupportedTargetError,
      Cls.clf_pn53x_Chipset_Error, Cls.clf_rcs380_StatusError] :=
   escapesOnly_of_checkOnly tree_ordered clfOnly_ok (by decide)
-theorem clf_listen_raises_commerror : Can Site.fn_clf_listen Cls.clf_TimeoutError :=
+theorem clf_listen_raises_commerror : Can Site.fn_clf_listen Cls.clf_TransmissionError :=
   canEscape_of_checkCan tree_ordered clfCan_ok (by decide)
 
 end NfcVerif.ExcFlowProps
